@@ -11,7 +11,7 @@
      <reader> { ; <meter> x<stream> <mono> <double> <temporality> <start> <end> { , (x<key> x<value>)* <sum> } }
    with streams sorted by (meter, name), points by attribute set; start/end are logical times (0 = SDK start, k = the k-th op).
    observation of RACE:  F <timestamps ok> { ; <reader> <meter> x<stream> (x<key> x<value>)* <total> }   sorted *)
-From V Require Export C06.Spec.
+From V Require Export C06.Spec Gen.Consts.
 Local Open Scope Z_scope.
 
 Inductive case :=
